@@ -722,14 +722,14 @@ func (x *execCtx) cast(v Value, typ string) (Value, error) {
 			}
 			return nil, pgErr("22P02", "invalid input value for enum %s: %q", td.Name, s)
 		}
-		return x.castComposite(v, td.Name, td.Fields)
+		return x.castComposite(v, td.Schema+"."+td.Name, td.Fields)
 	}
 	if t := x.s.findRowType(tn); t != nil {
 		var fields []ColDef
 		for _, c := range t.Cols {
 			fields = append(fields, ColDef{Name: c.Name, Type: c.Type})
 		}
-		return x.castComposite(v, t.Name, fields)
+		return x.castComposite(v, t.Schema+"."+t.Name, fields)
 	}
 	_ = fb
 	return nil, pgErr("42704", "type %q does not exist (casting %s)", typ, typeNameOf(v))
